@@ -1861,6 +1861,16 @@ def rule_d20(toks, log):
     Used where the tail is a sequence of `core::fmt::Formatter` / `write!` calls that Verus cannot host (float/src/fmt.rs).
     Shape checks: exactly one marker, at nesting depth 0 of the body, right after a real `;` or `}`, and at least one real
     token is dropped."""
+    # D20u (added for the int_memsize_* units): `#[cut_tail_unused(IDENT)]` is `#[cut_tail]` plus the shape check that the
+    # identifier IDENT does not occur among the dropped real tokens (the resource units cut value-dependent tails that
+    # must not touch the scratch `memory`; a code change that uses it there makes the unit unsupported, never a pass)
+    unused = None
+    for i in range(len(toks) - 6):
+        if toks[i][2] and _is(toks[i], '#') and _is(toks[i + 1], '[') and _is(toks[i + 2], 'cut_tail_unused') \
+                and _is(toks[i + 3], '(') and toks[i + 4][0] == 'id' and _is(toks[i + 5], ')') and _is(toks[i + 6], ']'):
+            unused = toks[i + 4][1]
+            toks = toks[:i] + toks_of('# [ cut_tail ]', True) + toks[i + 7:]
+            break
     hits = [i for i in range(len(toks) - 3)
             if toks[i][2] and _is(toks[i], '#') and _is(toks[i + 1], '[') and _is(toks[i + 2], 'cut_tail') and _is(toks[i + 3], ']')]
     if not hits:
@@ -1893,6 +1903,10 @@ def rule_d20(toks, log):
     dropped = [t for t in toks[m + 4:e] if not t[2]]
     if not dropped:
         raise Unsupported('D20: nothing to cut')
+    if unused is not None:
+        if any(t[0] == 'id' and t[1] == unused for t in dropped):
+            raise Unsupported('D20u: `%s` is used in the tail cut by #[cut_tail_unused(%s)]' % (unused, unused))
+        log.append('D20u the cut tail does not mention `%s` (checked on the real tokens)' % unused)
     log.append('D20 tail cut: %d real tokens after `%s` replaced by `__cut_tail()` (arbitrary value, no contract): only the '
                'prefix of the function is verified' % (len(dropped), _txt(toks[max(b + 1, p - 8):p + 1])[-60:]))
     return toks[:m] + toks_of('__cut_tail ( )', False) + toks[e:]
